@@ -34,6 +34,12 @@ SCOPE_NODE_NAMES = {
 }
 
 
+# The property's clause excludes names that the template binds somewhere.  Lookups of such
+# names that are nevertheless served by the global namespace while analyze() treats the
+# occurrence as bound are collected as diagnostics (counters `diag:*`, probe notes); set this
+# to True to report them as violations `globals:bound-elsewhere:<scope node>`.
+SCOPE_MISMATCH_IS_VIOLATION = False
+
 IMPLICIT_CONFIG_NAMES = {
     "translations", "locale", "input_locale", "timezone", "input_timezone", "currency_code",
     "currency_format", "datetime_format", "decimal_format", "decimal_quantization", "unit_format",
@@ -130,6 +136,7 @@ class Recorder:
         self.filters: dict[tuple, str] = {}  # (source, start, stop, name) -> node name
         self.tags: dict[tuple, str] = {}  # (source, start, stop, name) -> node name
         self.global_hits: dict[str, dict] = {}  # name -> first context
+        self.global_locs: dict[tuple, tuple] = {}  # (source, start, stop) -> (name, node, scope node)
         self.bound: set[str] = set()
         self.namespaces: list[Any] = []
         self.n_get = 0
@@ -197,6 +204,10 @@ class Recorder:
                     "start": getattr(tok, "start", None),
                     "stop": end if end is not None else getattr(tok, "stop", None),
                 }
+        if cur is not None and cur[0] == "get" and cur[1] is not None and hasattr(cur[1], "source"):
+            lk = (cur[1].source, cur[1].start, cur[1].stop)
+            if lk not in self.global_locs:
+                self.global_locs[lk] = (key, self.node_top(), self.scope_node())
         if key not in self.global_hits:
             info: dict[str, Any] = {"node": self.node_top(), "scope_node": self.scope_node(),
                                     "owner": self.owner()}
@@ -501,6 +512,12 @@ class Static:
                 self.var_at.setdefault((sp.template_name, sp.start, sp.end), []).append(v.segments)
                 self.var_roots_by_t.setdefault(sp.template_name, {}).setdefault(str(root), []).append(
                     (sp.start, sp.end))
+        self.global_at = {(v.span.template_name, v.span.start, v.span.end) for vs in a.globals.values() for v in vs}
+        self.global_roots_by_t: dict[str, dict[str, list[tuple[int, int]]]] = {}
+        for root, vs in a.globals.items():
+            for v in vs:
+                self.global_roots_by_t.setdefault(v.span.template_name, {}).setdefault(str(root), []).append(
+                    (v.span.start, v.span.end))
         self.filter_at = {(sp.template_name, sp.start, sp.end, k) for k, sps in a.filters.items() for sp in sps}
         self.tag_at = {(sp.template_name, sp.start, sp.end, k) for k, sps in a.tags.items() for sp in sps}
         self.global_names = {str(k) for k in a.globals}
@@ -620,6 +637,7 @@ class Checker:
         self.record = record and ctx is not None
         self.rec = Recorder()
         self.case_exec: set[tuple] = set()
+        self.diag: list[dict[str, Any]] = []  # scope diagnostics of the current case
         self._relex_cache: dict[str, Any] = {}
         self._relex_env: Any = None
 
@@ -1104,6 +1122,9 @@ class Checker:
                 kind = ("implicit-config" if name in IMPLICIT_CONFIG_NAMES else "message-variable") + f"@{info['owner']}"
             elif name not in st.variable_names:
                 kind = "unreported-variable"
+            elif name in {t.split(".", 1)[0] for t in cs.templates} - \
+                    {t.rsplit("/", 1)[-1].split(".")[0] for t in cs.templates}:
+                kind = "default-alias-derived-from-literal-name"
             else:
                 kind = f"scoped-by:{info['scope_node']}"
             where = ""
@@ -1113,6 +1134,27 @@ class Checker:
                         f"{name!r} reached the global namespace{where} (via {info['via']}, in {info['node']}), "
                         f"no template of the set binds it, yet analyze().globals does not list it",
                         {"name": name, "via": info["via"], "node": info["node"]}))
+        # ---- diagnostic, not part of the property's clause: the name IS bound somewhere in the
+        # set, yet this lookup was served by the global namespace while analyze() treats the
+        # occurrence as in scope (reports the variable there, not as a global)
+        for (src, start, stop), (name, node, scope_node) in rec.global_locs.items():
+            if (root_only and src != root_src) or name not in bound:
+                continue
+            tn = names(src)
+            if any((nm, start, stop) in st.var_at for nm in tn) and \
+                    not any((nm, start, stop) in st.global_at for nm in tn):
+                self.diag.append({"name": name, "template": tn, "start": start, "stop": stop,
+                                  "text": src[start:stop], "node": node, "scope_node": scope_node, "via": "get"})
+        for (name, owner), info in rec.resolves.items():
+            if (root_only and info.get("source") != root_src) or name not in bound or name in IMPLICIT_CONFIG_NAMES:
+                continue
+            tn = names(info.get("source"))
+            lo, hi = info["start"] or 0, info["stop"] or 10**9
+            in_vars = any(lo <= s0 and e0 <= hi for nm in tn for (s0, e0) in st.var_roots_by_t.get(nm, {}).get(name, ()))
+            in_glob = any(lo <= s0 and e0 <= hi for nm in tn for (s0, e0) in st.global_roots_by_t.get(nm, {}).get(name, ()))
+            if in_vars and not in_glob:
+                self.diag.append({"name": name, "template": tn, "start": info["start"], "stop": info["stop"],
+                                  "text": name, "node": owner, "scope_node": owner, "via": "resolve"})
         return n
 
 
@@ -1190,6 +1232,7 @@ def _run_case(chk: Checker, case: dict[str, Any], only: str | None, holder: list
     binders = set(case.get("binders") or ())
     rec = chk.rec
     chk.case_exec = set()
+    chk.diag = []
     for i, data in enumerate((case.get("datasets") or []) if want_runtime else []):
         mode = "async" if i % 3 == 2 else "sync"
         if case.get("modes"):
@@ -1238,6 +1281,20 @@ def _run_case(chk: Checker, case: dict[str, Any], only: str | None, holder: list
                 ctx.seen("node_classes", node)
             if n["lookups"] and n["filters"] and n["tags"]:
                 ctx.nt(sorted(cs.templates.items()), repr(data), mode)
+    dseen: set[tuple] = set()
+    for dg in chk.diag:
+        k = (dg["template"][0] if dg["template"] else None, dg["start"], dg["name"])
+        if k in dseen:
+            continue
+        dseen.add(k)
+        if SCOPE_MISMATCH_IS_VIOLATION:
+            out.append((f"globals:bound-elsewhere:{dg['scope_node']}",
+                        f"{dg['name']!r} at {dg['template']}[{dg['start']}:{dg['stop']}] was served by the global "
+                        f"namespace (in {dg['node']}) but analyze() treats that occurrence as bound",
+                        {"name": dg["name"], "template": dg["template"], "start": dg["start"]}))
+        elif ctx is not None:
+            ctx.count("diag:served-by-globals-but-statically-bound")
+            ctx.count(f"diag:served-by-globals-but-statically-bound@{dg['scope_node']}")
     if ctx is not None and case.get("posmap") and case.get("datasets"):
         for tname, pm in case["posmap"].items():
             src = cs.templates.get(tname)
